@@ -130,10 +130,11 @@ type Sim struct {
 	cut       cutMode
 	cutActors bool
 
-	endVirtual time.Duration
-	maxTick    time.Duration // when > 0, chaos ticks are capped (keeps client timeouts out of a configuration)
-	zsink      *Webhook
-	hiddenSeq  int
+	endVirtual  time.Duration
+	noTickWhile func() bool
+	maxTick     time.Duration // when > 0, chaos ticks are capped (keeps client timeouts out of a configuration)
+	zsink       *Webhook
+	hiddenSeq   int
 }
 
 func newSim(ch *chooser) *Sim {
@@ -256,7 +257,10 @@ func (s *Sim) Step() (progress bool) {
 		for _, a := range acts {
 			present[a.kind] = true
 		}
-		present[akTick] = true
+		// a configuration may forbid time to pass while something is pending (e.g. an HTTP
+		// exchange with a healthy endpoint, whose client would otherwise time out only
+		// because the scheduler starved its delivery)
+		present[akTick] = len(acts) == 0 || s.noTickWhile == nil || !s.noTickWhile()
 		total := 0
 		for k := 0; k < int(akCount); k++ {
 			if present[k] {
@@ -473,4 +477,24 @@ func (s *Sim) quiet(stepBudget int, dur time.Duration, f func()) {
 	}
 	synctest.Wait()
 	s.noteTime()
+}
+
+// httpInFlight reports whether a webhook request or response is in flight on a
+// connection whose endpoint is answering (not scripted to hang).
+func (s *Sim) httpInFlight(hanging func(addr string) bool) bool {
+	s.mu.Lock()
+	defer s.mu.Unlock()
+	for _, c := range s.conns {
+		if c.hidden || !strings.HasPrefix(c.label, "http:") || c.dead() {
+			continue
+		}
+		if c.a.inflightN == 0 && c.b.inflightN == 0 {
+			continue
+		}
+		if hanging != nil && hanging(string(c.b.local)) {
+			continue
+		}
+		return true
+	}
+	return false
 }
